@@ -245,9 +245,14 @@ Inductive hop :=
 | HHas (k : key)
 | HpCreate (s : script)
 | HpOpen (k : key)
-| HpHas (k : key).
+| HpHas (k : key)
+(** the mapped store over a user-supplied Store that misbehaves for this call *)
+| HuCreate (s : script) (sh : ushape)
+| HuOpen (k : key) (sh : ushape)
+| HuHas (k : key) (sh : ushape).
 
 Notation mstep := (mem_step (Dtab tab) gen_mem_put_copies gen_mem_get_copies).
+Notation ustep := (mem_ustep (Dtab tab) gen_mem_put_copies gen_mem_get_copies).
 
 Definition obs_of_mres (r : mres) : fobs :=
   match r with
@@ -291,6 +296,9 @@ Definition mem_do (st : memst) (hs : list nat) (op : hop) : memst * list nat * f
   | HpCreate s => let '(st', r) := mstep st (MpCreate s) in (st', hs, obs_of_mres r)
   | HpOpen k => let '(st', r) := mstep st (MpOpen k) in (st', hs, obs_of_mres r)
   | HpHas k => let '(st', r) := mstep st (MpHas k) in (st', hs, obs_of_mres r)
+  | HuCreate s sh => let '(st', r) := ustep st sh (MpCreate s) in (st', hs, obs_of_mres r)
+  | HuOpen k sh => let '(st', r) := ustep st sh (MpOpen k) in (st', hs, obs_of_mres r)
+  | HuHas k sh => let '(st', r) := ustep st sh (MpHas k) in (st', hs, obs_of_mres r)
   end.
 
 Fixpoint mem_hist (st : memst) (hs : list nat) (ops : list hop) : list fobs :=
@@ -301,6 +309,27 @@ Fixpoint mem_hist (st : memst) (hs : list nat) (ops : list hop) : list fobs :=
 
 Definition check_mem_hist (ops : list hop) (obs : list fobs) : bool :=
   all2 fobs_eqb (mem_hist mem_empty [] ops) obs.
+
+(** ** hashutil.Hash / HashStr / HashFile (of a file holding [c]) and
+    HashReader over a script: the hex of the digest of everything delivered,
+    or the reader's own error. *)
+
+Inductive xop := XBytes (c : bytes) | XReader (s : script) | XOsErr.
+
+Definition hash_obs (op : xop) : fobs :=
+  match op with
+  | XBytes c => FoKey (hex_encode (Dtab tab c))
+  | XReader s =>
+      match drain s with
+      | (c, REof) => FoKey (hex_encode (Dtab tab c))
+      | (_, RFail e) => FoErrIn e
+      | (_, RNil) => FoErrOther
+      end
+  | XOsErr => FoErrOs
+  end.
+
+Definition check_hash (ops : list xop) (obs : list fobs) : bool :=
+  all2 fobs_eqb (map hash_obs ops) obs.
 
 (** ** CheckReader *)
 
@@ -332,7 +361,8 @@ Inductive ccase :=
         (opens : list (key * fobs))
 | CMemHist (tab : dtab) (ops : list hop) (obs : list fobs)
 | CCr (tab : dtab) (want : bytes) (n : Z) (s : script) (trace : list (bytes * N))
-| CNewCr (tab : dtab) (h : list N) (n : Z) (code : N) (s : script) (trace : list (bytes * N)).
+| CNewCr (tab : dtab) (h : list N) (n : Z) (code : N) (s : script) (trace : list (bytes * N))
+| CHash (tab : dtab) (ops : list xop) (obs : list fobs).
 
 Definition check_case (c : ccase) : bool :=
   match c with
@@ -342,6 +372,7 @@ Definition check_case (c : ccase) : bool :=
   | CMemHist tab ops obs => check_mem_hist tab ops obs
   | CCr tab want n s trace => check_cr tab want n s trace
   | CNewCr tab h n code s trace => check_newcr tab h n code s trace
+  | CHash tab ops obs => check_hash tab ops obs
   end.
 
 Fixpoint mismatches_from (i : nat) (cs : list ccase) : list nat :=
